@@ -205,7 +205,7 @@ def generate(rng, tier="quick"):
     ops = []
     evals = []
     for _ in range(rng.randint(1, 40 if tier == "thorough" else 24)):
-        kind = rng.weighted([("eval", 10), ("reject", 5), ("repeat", 2), ("restat", 2), ("validate", 3), ("create", 1)])
+        kind = rng.weighted([("eval", 10), ("reject", 5), ("repeat", 2), ("restat", 2), ("validate", 3), ("revalidate", 1.5), ("create", 1)])
         if kind == "eval":
             ast = gen_ast(rng, rng.randint(0, 4))
             op = {"op": "eval", "ast": ast, "text": to_text(render(ast), rng.pick(("spaced", "tight", "mixed"))), "stats": gen_stats(rng)}
@@ -219,6 +219,9 @@ def generate(rng, tier="quick"):
             ops.append(op)
         elif kind == "reject":
             ops.append({"op": "reject", "text": rng.pick(REJECTS), "stats": gen_stats(rng)})
+        elif kind == "revalidate" and any(o["op"] == "validate" for o in ops):
+            # the very same specification validated again: the verdict may not depend on having been asked before
+            ops.append(copy.deepcopy(rng.pick([o for o in ops if o["op"] == "validate"])))
         elif kind == "validate":
             toks = [rng.pick(VALID_TOKENS) for _ in range(rng.randint(1, 6))]
             valid = True
@@ -384,6 +387,9 @@ def execute(scn):
                 rejected_before = True
             if len(fx_parser.exprStack) > before:
                 bump("exprStack_debris")
+        elif kind == "revalidate" and any(o["op"] == "validate" for o in ops):
+            # the very same specification validated again: the verdict may not depend on having been asked before
+            ops.append(copy.deepcopy(rng.pick([o for o in ops if o["op"] == "validate"])))
         elif kind == "validate":
             spec = " ".join(op["tokens"])
             section = {"suspect_min": spec, "suspect_max": "1", "fail_min": "1", "fail_max": "1"}
